@@ -66,7 +66,7 @@ MODES = {
     "C05": Mode("C05", prerun=True, raises=True, enterdone=True, always=True, stale_done=True, limits=(None, 2.0, 2.5, 0.3, 1.0, 3.0),
                 ext=("uncle", "fresh"), callcfg=True),
     "C06": Mode("C06", prerun=True, tocks=True, rets=True, enterdone=True, ext=("fresh", "present", "dup", "done", "redo", "uncle"),
-                rem=("self", "prev", "next", "far", "alias", "dupnext", "done", "absent"), always=True, kinds=(0, 2, 4),
+                rem=("self", "prev", "next", "far", "alias", "dupnext", "pairrev", "done", "absent"), always=True, kinds=(0, 2, 4),
                 limits=(None, 3.0, 2.0)),
     "C30": Mode("C30", raises=True, enterdone=True, limits=(None, 2.0, 2.5)),
 }
@@ -272,6 +272,9 @@ class World:
             pn = owner.name
             kids = [n for n in self.order if self.parent.get(n) == pn]
             names = kids[1:2] or kids[:1]
+        elif what == "pairrev":       # two other siblings, named in the reverse of their insertion order
+            others = [n for n in sibs if n != leaf.name]
+            names = [others[-1], others[0]] if len(others) >= 2 else others[-1:]
         elif what == "dupnext":
             names = [sibs[i + 1]] * 2 if i + 1 < len(sibs) else [sibs[i - 1]] * 2 if i > 0 else []
         elif what == "done":
